@@ -76,11 +76,14 @@ def parseBasic (s : Bytes) : Option Bytes :=
   | 0xFF :: lh :: ll :: rest => if rest.length = lh * 256 + ll then some rest else none
   | _ => none
 
-/-- the stored stream of entry `k` (chain granules in chain order, cut to the implied length) -/
+/-- the stored stream of entry `k` (chain granules in chain order, cut to the implied length, which must not
+exceed the chain's capacity) -/
 def storedStream (img : Bytes) (k : Nat) : Option Bytes :=
   match chainOf img k with
   | none => none
-  | some (c, s) => some ((streamOf img c).take (impliedLength c.length s (entLastBytes (dirEntry img k))))
+  | some (c, s) =>
+    let n := impliedLength c.length s (entLastBytes (dirEntry img k))
+    if n ≤ c.length * granuleSize then some ((streamOf img c).take n) else none   -- implied length must fit the chain
 
 def lengthOK (img : Bytes) (k : Nat) : Bool :=
   match storedStream img k with
